@@ -4,6 +4,9 @@ import GrinVerif.Model.ChainImpl
 import GrinVerif.Model.ChainFull
 import GrinVerif.Model.ChainInputs
 import GrinVerif.Model.ChainNrdDup
+import GrinVerif.Model.ChainReport
+import GrinVerif.Model.ChainStatus
+import GrinVerif.Model.ChainOrphans
 /-! Driver glue for the `chain` domain: block tree definitions shared by all subject chains,
 one model `Node` per subject. -/
 namespace GV.Drv.ChainD
@@ -16,6 +19,10 @@ structure St where
   /-- parallel run of the incremental txhashset model (`Model/ChainImpl.lean`), per subject:
   the block the txhashset is at, and the txhashset (`none` after a failed move) -/
   impls : List (String × Nat × Option TxHS) := []
+  /-- per subject: what the model's adapter was told during the last `deliver` -/
+  told : List (String × String) := []
+  /-- per subject: the bounded orphan pool (`Model/ChainOrphans.lean`) -/
+  pools : List (String × OPool) := []
 
 def stripPfx (s : String) (n : Nat) : String := (s.drop n).toString
 
@@ -108,6 +115,37 @@ def cmpImplObs (st : St) (s : String) (impl : String) : Verdict :=
   | some (_, _, none) => .diff "txhashset-model failed to follow the head"
   | none => .ok
 
+def showOuts (l : List Nat) : String := "[" ++ ",".intercalate (l.map fun o => s!"o{o}") ++ "]"
+
+def implOf (st : St) (s : String) : Option TxHS :=
+  match st.impls.find? (·.1 == s) with
+  | some (_, _, some S) => some S
+  | _ => none
+
+/-- `-` or a number -/
+def parseOptNat (s : String) : Option (Option Nat) :=
+  if s == "-" then some none else s.toNat?.map some
+
+/-- `chain enum …`: `Chain::unspent_outputs_by_pmmr_index` on the txhashset model -/
+def showEnum (S : TxHS) (start count : Nat) (max : Option Nat) : String :=
+  let r := S.unspentOutputsByPmmrIndex start count max
+  s!"next={r.1} last={r.2.1} outs={showOuts r.2.2}"
+
+/-- the part of an enumeration answer the property fixes when the whole set is asked for: which
+outputs are reported -/
+def outsField (s : String) : String :=
+  match (s.splitOn " ").find? (·.startsWith "outs=") with
+  | some f => f
+  | none => ""
+
+/-- `[b5:next:b4,b6:fork:b3:b5:b2]` → `[b5:head,b6:fork]`: which blocks were announced, and
+whether as a new head or as a fork block -/
+def statusSkeleton (s : String) : List String :=
+  (listItems s).map fun it =>
+    match it.splitOn ":" with
+    | b :: k :: _ => if k == "fork" then b ++ ":fork" else b ++ ":head"
+    | _ => it
+
 /-- accept/reject is fixed by the property (spec); the error class is an internal observable -/
 def cmpDeliver (model impl : String) : Verdict :=
   if model = impl then .ok
@@ -156,9 +194,79 @@ def handle (st : St) (args : List String) (impl : String) : St × Verdict :=
   | ["deliver", s, b] =>
     match getNode st s, (idOf b).bind (fun i => st.blks.find? (·.id == i)) with
     | some n, some blk =>
-      let (n', r) := deliverBlock p n blk
-      (followImpl (setNode st s n') s n', cmpDeliver r.toString impl)
+      -- `deliverBlockEv` is `deliverBlock` with the adapter notifications (Props/C03Status.lean:
+      -- `deliverBlockEv_fst`, `deliverBlockEv_res`)
+      let (n', r, evs) := deliverBlockEv p n blk
+      let st1 := { st with told := (s, showEvs evs) :: st.told.filter (·.1 != s) }
+      (followImpl (setNode st1 s n') s n', cmpDeliver r.toString impl)
     | _, _ => (st, .unknown)
+  | ["opool", s, "new"] => ({ st with pools := (s, {}) :: st.pools.filter (·.1 != s) }, .ok)
+  | ["opool", s, "add", b, h] =>
+    match st.pools.find? (·.1 == s), idOf b, (kv [h] "h").bind String.toNat? with
+    | some (_, P), some id, some h =>
+      let P' := P.add GV.Gen.MAX_ORPHAN_SIZE id h
+      ({ st with pools := (s, P') :: st.pools.filter (·.1 != s) },
+        cmpModel s!"len={P'.orphans.length} evicted={P'.evicted}" impl)
+    | _, _, _ => (st, .unknown)
+  | ["opool", s, "has", l] =>
+    match st.pools.find? (·.1 == s), (listItems l).mapM idOf with
+    | some (_, P), some ids =>
+      (st, cmpModel ("[" ++ ",".intercalate (ids.map fun i => if P.contains i then "1" else "0") ++ "]") impl)
+    | _, _ => (st, .unknown)
+  | ["status", s] =>
+    -- which blocks are announced as accepted, and whether as head or as fork, is fixed by the
+    -- property (C03 observation point); Next-vs-Reorg and the fork point follow the code
+    match st.told.find? (·.1 == s) with
+    | some (_, m) =>
+      if statusSkeleton m = statusSkeleton impl then (st, cmpModel m impl) else (st, .fail m)
+    | none => (st, .unknown)
+  | ["upos", s] =>
+    match implOf st s with
+    | some S =>
+      let l := (sortNat S.reported).filterMap fun c => (S.getUnspentPos c).map fun (pos, h) => s!"o{c}:{pos}:{h}"
+      (st, cmpModel ("[" ++ ",".intercalate l ++ "]") impl)
+    | none => (st, .diff "txhashset-model failed to follow the head")
+  | ["enum", s, a, c, m] =>
+    match implOf st s, (kv [a] "start").bind String.toNat?, (kv [c] "count").bind String.toNat?, (kv [m] "max").bind parseOptNat with
+    | some S, some start, some count, some max =>
+      let model := showEnum S start count max
+      -- the whole set in one call: WHICH outputs are reported is the property itself
+      if start ≤ 1 ∧ max.isNone ∧ count ≥ S.leaves.length then
+        if outsField model = outsField impl then (st, cmpModel model impl) else (st, .fail model)
+      else (st, cmpModel model impl)
+    | none, _, _, _ => (st, .diff "txhashset-model failed to follow the head")
+    | _, _, _, _ => (st, .unknown)
+  | ["outat", s] =>
+    match implOf st s with
+    | some S =>
+      let items := listItems impl
+      let m := items.map fun it =>
+        match it.splitOn ":" with
+        | [p, _] => match p.toNat? with
+          | some pos0 => (match S.getUnspentOutputAt pos0 with
+            | .ok c => s!"{pos0}:o{c}"
+            | .error _ => s!"{pos0}:-")
+          | none => "?"
+        | _ => "?"
+      (st, cmpModel ("[" ++ ",".intercalate m ++ "]") impl)
+    | none => (st, .diff "txhashset-model failed to follow the head")
+  | ["hdrfor", s] =>
+    match implOf st s, getNode st s with
+    | some S, some n =>
+      let l := (sortNat S.reported).map fun c =>
+        match headerForOutput n S c with
+        | .ok b => s!"o{c}:b{b}"
+        | .error _ => s!"o{c}:err"
+      (st, cmpModel ("[" ++ ",".intercalate l ++ "]") impl)
+    | _, _ => (st, .diff "txhashset-model failed to follow the head")
+  | ["hrange", s, a, b] =>
+    match getNode st s, a.toNat?, b.toNat? with
+    | some n, some a, some b =>
+      let m := match heightRangeToPmmr n a b with
+        | .ok (x, y) => s!"{x},{y}"
+        | .error e => s!"err:{e}"
+      (st, cmpModel m impl)
+    | _, _, _ => (st, .unknown)
   | ["hdr", s, b] =>
     match getNode st s, (idOf b).bind (fun i => st.blks.find? (·.id == i)) with
     | some n, some blk =>
